@@ -351,6 +351,48 @@ fn one_case(ctx: &mut Ctx, idx: usize, w: &World, w2: &World) {
     let _ = (Field::is_zero(&Scalar::zero()), spare);
 }
 
+/// Witness-deviation sweep for pay proofs (see C01): 32 coordinates — the token's message, the new state and close-state
+/// messages, the three vectors of commitment scalars, the revocation-lock message and its commitment scalar — moved in
+/// pairs by (δ, δ) and (δ, -δ); all Schnorr equations hold for the deviated witness, the verifier's fifteen relations
+/// decide, and the real verdict must be the model's.  quick: a quarter of the pairs (rotating with the seed).
+fn sweep_case(ctx: &mut Ctx, idx: usize, w: &World) {
+    if !ctx.begin_case(idx, "pay-witness-deviation-sweep") {
+        return;
+    }
+    let book = ctx.book.clone();
+    let a = Agreed::random(ctx);
+    let mut s = match open_session(ctx, w, &a) { Some(s) => s, None => return };
+    let amount = valid_amount(ctx, s.cb, s.mb);
+    let ready = match s.ready.take() { Some(r) => r, None => return };
+    let rb = wire::ser(&ready);
+    let tok = match (book.dlog_g1_bytes(&rb[145..193]), book.dlog_g1_bytes(&rb[193..241])) { (Some(x), Some(y)) => (x, y), _ => return };
+    let run = match pay_start(ctx, w, &a, ready, amount) { StartOutcome::Started(r) => *r, _ => return };
+    let (old, new) = (run.old_ms.clone(), run.new_ms.clone());
+    let (ncb, nmb) = ((s.cb as i128 - amount as i128) as u64, (s.mb as i128 + amount as i128) as u64);
+    let coord = |f: &mut PayForge, k: usize, d: Scalar| {
+        match k / 5 { 0 => f.old[k % 5] += d, 1 => f.ms_s[k % 5] += d, 2 => f.ms_c[k % 5] += d, 3 => f.ts_tok[k % 5] += d, 4 => f.ts_s[k % 5] += d, 5 => f.ts_c[k % 5] += d, _ => if k == 30 { f.rl_m += d } else { f.rl_t += d } }
+    };
+    let quarter = (ctx.seed as usize) % 4;
+    let mut p = 0usize;
+    for i in 0..32 {
+        for j in i + 1..32 {
+            for sign in 0..2 {
+                p += 1;
+                if p % ctx.nshards != ctx.shard { continue; }
+                if !ctx.thorough() && (p / ctx.nshards) % 4 != quarter { continue; }
+                let mut f = PayForge::honest(ctx, &old, &new, tok, ncb, nmb);
+                let d = Scalar::from(1 + ctx.prng.gen_range(0..1000u64));
+                coord(&mut f, i, d);
+                coord(&mut f, j, if sign == 0 { d } else { -d });
+                let draft = match f.atoms(ctx, w, &Scalar::zero()) { Some(d) => d, None => return };
+                let c1 = match allow_check(ctx, w, &old[1], amount, &a.ctx_bytes, &draft, None, "draft") { Some(o) => o.challenge, None => return };
+                let dd = match f.atoms(ctx, w, &c1) { Some(d) => d, None => return };
+                let _ = allow_check(ctx, w, &old[1], amount, &a.ctx_bytes, &dd, None, "witness-deviation-pair");
+            }
+        }
+    }
+}
+
 pub fn run(ctx: &mut Ctx) {
     // the digits that carry a signature under a freshly generated range key (hypothesis of pay_balances_in_range)
     if ctx.shard == 0 && ctx.begin_case(0, "generated-range-parameters") {
@@ -364,4 +406,5 @@ pub fn run(ctx: &mut Ctx) {
     for idx in 0..n {
         one_case(ctx, idx, &w, &w2);
     }
+    sweep_case(ctx, 4096 * ctx.nshards + ctx.shard, &w);
 }
